@@ -2,6 +2,7 @@ package bus
 
 import (
 	"bytes"
+	"sync"
 	"time"
 
 	"github.com/lugu/qiloop/bus/net"
@@ -24,6 +25,11 @@ type Channel interface {
 type channel struct {
 	capability CapabilityMap
 	endpoint   net.EndPoint
+	// authMutex protects the authentication state kept in capability:
+	// it is set by the authentication service (from its own
+	// goroutine) while the goroutine of the connection reads it for
+	// every incoming message.
+	authMutex sync.RWMutex
 }
 
 // NewChannel retuns a channel
@@ -82,11 +88,15 @@ func (c *channel) Authenticate() error {
 
 // Authenticated returns true if the connection is authenticated.
 func (c *channel) Authenticated() bool {
+	c.authMutex.RLock()
+	defer c.authMutex.RUnlock()
 	return c.capability.Authenticated()
 }
 
 // SetAuthenticated marks the context as authenticated.
 func (c *channel) SetAuthenticated() {
+	c.authMutex.Lock()
+	defer c.authMutex.Unlock()
 	c.capability.SetAuthenticated()
 }
 
